@@ -355,6 +355,28 @@ def fam_morenl(rng):
     return rs, cfg, gen
 
 
+def fam_sevennul(rng):
+    """7-bit scanners (csize 128) whose rules write NUL inside bracket classes - alone, in a range from \\0 up, next to
+    letters, negated -, equivalence classes on more often than not, NULs all over the input: NUL's slot in the generator's
+    character tables is 128 there, not 256 (C04)"""
+    rs = rules.gen_ruleset(rng, p_trail=0.0, csize=128, nrules=rng.choice([1, 2, 3, 4]))
+    a, b = rng.choice([97, 98, 48]), rng.choice([99, 65, 10])
+    shapes = [('cls', ('br', False, [('c', 0)])), ('cls', ('br', False, [('c', 0), ('c', a)])), ('cls', ('br', False, [('r', 0, 3)])),
+              ('cls', ('br', True, [('c', 0), ('c', b)])), ('cls', ('br', False, [('c', a), ('c', 0), ('c', b)]))]
+    for cls in rng.sample(shapes, rng.choice([1, 2])):
+        head = rng.choice([cls, ('plus', cls), ('cat', ('chr', a), cls), ('cat', cls, ('chr', b))])
+        rs.rules.insert(rng.randrange(len(rs.rules) + 1),
+                        {'scs': [], 'all': False, 'bol': False, 'head': head, 'trail': None, 'dollar': False})
+    cfg = rt.Config(backend=_backend(rng, cxx=True), topt=rng.choice([['-Cem'], ['-Ce'], ['-Cfe'], ['-CFe'], ['-Cae'], ['-Cm'], ['-Cf']]),
+                    interactive=rng.choice([None, False]))
+
+    def gen(rng, rs, cfg):
+        c = _basic_case(rng, rs, cfg)
+        c['srcs'] = [[0 if rng.random() < 0.3 else x for x in w] + [0, a, 0, b, 0] for w in c['srcs']]
+        return c
+    return rs, cfg, gen
+
+
 def fam_scbol(rng):
     """start conditions and ^: two to four conditions, exclusive and inclusive ones in either order of declaration, half the
     rules anchored, most of them without a start condition; actions switch condition all the time and the input has a
@@ -744,5 +766,5 @@ def fam_nultail(rng):
     return rs, cfg, gen
 
 
-FAMILIES = {'nultail': fam_nultail, 'morenl': fam_morenl, 'scbol': fam_scbol, 'stdioint': fam_stdioint, 'switchwrap': fam_switchwrap, 'memmore': fam_memmore, 'inputbol': fam_inputbol, 'sertrail': fam_sertrail, 'buffers': fam_buffers, 'include': fam_include, 'plain': fam_plain, 'ops': fam_ops, 'unput': fam_unput, 'reject': fam_reject,
+FAMILIES = {'nultail': fam_nultail, 'sevennul': fam_sevennul, 'morenl': fam_morenl, 'scbol': fam_scbol, 'stdioint': fam_stdioint, 'switchwrap': fam_switchwrap, 'memmore': fam_memmore, 'inputbol': fam_inputbol, 'sertrail': fam_sertrail, 'buffers': fam_buffers, 'include': fam_include, 'plain': fam_plain, 'ops': fam_ops, 'unput': fam_unput, 'reject': fam_reject,
             'lineno': fam_lineno, 'trail': fam_trail, 'eof': fam_eof, 'deepstack': fam_deepstack, 'reads': fam_reads, 'bufreq': fam_bufreq, 'arraymore': fam_arraymore, 'wrapbol': fam_wrapbol}
